@@ -28,7 +28,8 @@ out = ["### 10.5 Seeded changes and which checks catch them",
        "Each change was written by a fresh sub-agent that saw only the property text and a scratch worktree; it compiles and",
        "passes the pinned suite (1308 tests). `seeded/<id>/` holds `patch.diff`, the demonstration and `meta.json` (what it",
        "needs to manifest, what was run). Validation: the patch is applied to a scratch worktree of /repo HEAD and the check",
-       "is run against it (`SV_REPO=<worktree> ./check <id>`); the demonstration and the pinned suite are re-run by the",
+       "is run against it (`SV_REPO=<worktree> ./check <id>`; round 3: applied to /repo itself with `git -C /repo apply`, checked,",
+       "and undone with `git -C /repo checkout -- .`); the demonstration and the pinned suite are re-run by the",
        "orchestrator (`confirmed_by_orchestrator` in meta.json). \"Strengthened\" = the check missed the change at first and",
        "was extended (generator/harness/model), never by special-casing the patch.",
        "",
